@@ -21,7 +21,7 @@ RULE = ("1-8 stations registered in random order, then 1-25 add/remove/update/qu
         ">=1 remove or update and >=1 composed Current; distinct = distinct operation/expression-shape sequence")
 PROBES = ["composed_current", "scalar_multiple_operand", "remove", "update", "update_new_name", "rejected_unknown_station",
           "rejected_unknown_name", "late_register_rejected", "subset_query_reordered", "time_subset_query", "time_window_permuted",
-          "duplicate_name", "unnamed", "series_leaf", "json_restart", "plain_series_operand"]
+          "duplicate_name", "unnamed", "series_leaf", "json_restart", "plain_series_operand", "update_derived_from_old_row", "time_window_negative"]
 FAULT_DIMENSION = "restart (network saved to JSON and loaded mid-history); rejected operations (unknown station / unknown name / late register_evse); weakest sense in which the family applies"
 REAL_VS_STUB = "real: ChargingNetwork, Current, EVSE; ours: dict-based reference network (refnet)"
 ASSUMPTIONS = ["row order is only required to be aligned with constraint_index (the position of an updated row is not constrained)",
@@ -168,7 +168,11 @@ def gen(rs, tier):
         elif k < 0.72:
             ops.append({"op": "update", "pick": r.randrange(10 ** 6), "expr": gen_expr(r, stations),
                         "limit": round(r.uniform(1, 500), 2), "new_name": ("u%d" % counter) if r.random() < 0.4 else None,
-                        "ghost": r.random() < 0.08})
+                        "ghost": r.random() < 0.08,
+                        # 'derive': the new Current is derived from the row being replaced (same coefficients for a strict subset of
+                        # its stations / the same row with another limit / one coefficient changed) instead of being unrelated
+                        "derive": r.choice([None, None, None, "drop_station", "same_row", "one_changed", "drop_all"]),
+                        "dseed": r.randrange(10 ** 6)})
             counter += 1
         elif k < 0.95:
             ops.append({"op": "query", "seed": r.randrange(10 ** 6), "subset": r.random() < 0.7, "times": r.random() < 0.5,
@@ -306,6 +310,21 @@ def check(sc):
                         new_name = op["new_name"]
                         if new_name is not None and new_name in names:
                             new_name = None
+                        old_row = next((r_ for r_ in rows if r_["name"] == nm), None)
+                        if op.get("derive") and old_row is not None and sum(1 for r_ in rows if r_["name"] == nm) == 1:
+                            rd = sub(op["dseed"], "derive")
+                            terms = {k_: v_ for k_, v_ in old_row["coeffs"].items() if v_ != 0}
+                            if op["derive"] == "drop_station" and len(terms) >= 2:
+                                for k_ in rd.sample(sorted(terms), rd.randint(1, len(terms) - 1)):
+                                    del terms[k_]
+                            elif op["derive"] == "drop_all":
+                                terms = {k_: 0 for k_ in terms}
+                            elif op["derive"] == "one_changed" and terms:
+                                k_ = rd.choice(sorted(terms))
+                                terms[k_] = terms[k_] + rd.choice([1, -1, 0.5])
+                            if terms:
+                                e = {"k": "leaf", "form": "dict", "terms": terms}
+                                out.probe("update_derived_from_old_row")
                         nw.update_constraint(nm, ev_real_checked(e), op["limit"], new_name=new_name)
                         rows = [r for r in rows if r["name"] != nm]
                         rows.append({"name": new_name or nm, "coeffs": ev_model(e), "limit": float(op["limit"])})
@@ -365,6 +384,11 @@ def check(sc):
                             tsel = list(range(T - 1, -1, -1))[: r.randint(1, T)]      # descending
                         elif tm < 0.45:
                             tsel = list(range(0, T, 2))                                # strided
+                        elif tm < 0.6 and T >= 2:
+                            # periods counted from the end (numpy's negative indices), incl. windows ending at -1 / crossing 0
+                            k_ = r.randint(1, T)
+                            tsel = r.choice([list(range(-k_, 0)), list(range(-1, -k_ - 1, -1)), [-1, 0], [-1]])
+                            out.probe("time_window_negative")
                         out.probe("time_subset_query")
                     got = nw.constraint_current(np.array(M), constraints=subset, time_indices=tsel, linear=op["linear"])
                     by = {x["name"]: x for x in rows}
